@@ -73,17 +73,26 @@ def run(ctx, rep):
     for (eb, kind, atom, text) in s.events:
         ok = any(pull.edge_dominates(e, eb) for e in good)
         rep.ob("AFTER-MAC", "pull|%s" % text.split(" at ")[0], ok, "%s %s the MAC success edge" % (text, "is dominated by" if ok else "is NOT dominated by"), loc=pull.loc(eb))
+    # From here on the rules run on inlined views: private helpers (state_counter/state_inonce/
+    # counter reset/rekey predicates/pad helpers, whatever they are called today) are folded into
+    # their callers, so the rules do not depend on where the module draws its private boundaries.
+    from ..inline import inline
+
+    def xor_like(g):
+        # crate-local two-slice writer containing a BitXor: (&mut [u8], &[u8])
+        if g.argc != 2 or "&mut [u8]" not in g.locals[1]["t"]:
+            return False
+        return any(s_["rv"]["k"] == "binop" and s_["rv"]["op"] == "BitXor" for u in prog.unit(g) for _, _, s_ in u.assigns())
+    keep = (xor_like,)
+    state_param = lambda f: [p for p in cm.params_of(f) if f.locals[p]["t"].endswith("State") and "mut" in f.locals[p]["t"]][0]
+    V = {f.key: inline(prog, f, keep=keep) for f in (push, pull, rekey, ipush, ipull)}
     # ---- EVOLVE -------------------------------------------------------------------------------
-    for f in (push, pull):
-        st = f.arg_local("state") or 1
+    for f0 in (push, pull):
+        f = V[f0.key]
+        st = state_param(f)
         seq = state_calls(prog, f, st)
-        xor = [c for n, c in seq if c.is_local and len(c.args) == 2 and n not in ("rekey",) and "xor" in n]
-        inc = [c for n, c in seq if c.is_local and len(c.args) == 1 and "increment" in n]
-        # shape-based fallback: the crate-local two-slice writer / one-slice writer on state views
-        if not xor:
-            xor = [c for n, c in seq if c.is_local and len(c.args) == 2 and prog.callee_fns(c) and prog.callee_fns(c)[0].path.startswith("utils::")]
-        if not inc:
-            inc = [c for n, c in seq if c.is_local and len(c.args) == 1 and prog.callee_fns(c) and prog.callee_fns(c)[0].path.startswith("utils::")]
+        xor = [c for n, c in seq if c.is_local and len(c.args) == 2 and prog.callee_fns(c) and xor_like(prog.callee_fns(c)[0])]
+        inc = [c for n, c in seq if c.rpath in ("utils::increment_bytes", "utils::sodium_increment")]
         for b, kind, e in result_kind_of_ret(f):
             if kind != "ok" or b not in f.reachable(0):
                 continue
@@ -94,7 +103,6 @@ def run(ctx, rep):
         # xor operand is the MAC
         if xor:
             c = xor[0]
-            t = deep_repr(call_arg_exprs(c)[1])
             finals = [x for x in f.calls() if cm.POLY_FINAL.search(x.rpath)]
             macroots = set()
             for x in finals:
@@ -106,81 +114,139 @@ def run(ctx, rep):
             rep.ob("EVOLVE", "%s|xor operand is the computed MAC" % f.name[-4:], r in macroots, "second operand root `%s`" % f.local_name(r), loc=c.loc())
     # ---- LOCKSTEP -----------------------------------------------------------------------------
     def post_mac(f):
-        st = f.arg_local("state") or 1
+        st = state_param(f)
         finals = [x for x in f.calls() if cm.POLY_FINAL.search(x.rpath)]
         if not finals:
             return []
         after = f.reachable_from_after(finals[0].bb)
         return [n for n, c in state_calls(prog, f, st, after)]
-    sp, sl = post_mac(push), post_mac(pull)
+    sp, sl = post_mac(V[push.key]), post_mac(V[pull.key])
     rep.ob("LOCKSTEP", "post-MAC state sequence push == pull", sp == sl and len(sp) >= 4, "push: %s; pull: %s" % (sp, sl), loc=push.loc())
 
-    def trigger(f):
-        rk = [c for c in f.calls() if rekey in prog.callee_fns(c)]
-        if not rk:
-            return None
-        sig = []
-        for b in sorted(f.dom.get(rk[0].bb, ())):
-            t = f.blocks[b]["t"]
-            if t["k"] != "switch":
-                continue
-            e = expr_of_operand(f, t["x"])
-            txt = deep_repr(e)
-            if "BitAnd" in txt:
-                consts = sorted(set(int(x) for x in __import__("re").findall(r"const\((\d+)\)", txt)))
-                sig.append(("tag&", tuple(consts)))
-            elif "ct_eq" in txt:
-                c = [a for a in f.calls() if a.path == cm.CT_EQ and a.bb in f.dom.get(b, ())][-1]
-                ws = [cm.array_width(f, a) for a in c.args]
-                sig.append(("counter ct_eq zeros", tuple(w for w in ws if w)))
-        # both conditions are alternatives: rekey must be reachable via either
-        return sig
-    tp, tl = trigger(push), trigger(pull)
-    # the disjunction lowers to two switches of which only the first dominates; collect all switches between MAC and rekey
     def trigger_all(f):
+        """The conditions that decide whether the rekey call is reached after the MAC: every
+        `x & c` and every ct_eq over a state view whose result flows into the discriminant of a
+        switch that has the rekey call on some but not all of its arms."""
         rk = [c for c in f.calls() if rekey in prog.callee_fns(c)]
         finals = [x for x in f.calls() if cm.POLY_FINAL.search(x.rpath)]
         if not rk or not finals:
             return None
         region = f.reachable_from_after(finals[0].bb)
-        sig = set()
+        stv = views_of(f, [state_param(f)])
+        rets = [b for b in range(f.n) if f.blocks[b]["t"]["k"] == "return"]
+        deciding = set()
         for b in region:
             t = f.blocks[b]["t"]
-            if t["k"] != "switch" or rk[0].bb not in f.reachable(b):
+            if t["k"] != "switch":
                 continue
-            txt = deep_repr(expr_of_operand(f, t["x"]))
-            if "BitAnd" in txt:
-                sig.add(("tag&", tuple(sorted(set(int(x) for x in __import__("re").findall(r"const\((\d+)\)", txt))))))
-            elif "ct_eq" in txt:
-                stv = views_of(f, [f.arg_local("state") or 1])
-                cs = [a for a in f.calls() if a.path == cm.CT_EQ and a.bb in f.dom.get(b, ()) and a.bb in region
-                      and any(x.get("k") in ("copy", "move") and x["l"] in stv for x in a.args)]
-                if cs:
-                    sig.add(("counter==0", tuple(w for w in [cm.array_width(f, a) for a in cs[-1].args] if w)))
+            # rekey can be reached from here, and can also be avoided from here
+            if rk[0].bb in f.reachable(b) and any(r_ in f.reachable(b, cut_blocks=[rk[0].bb]) for r_ in rets):
+                deciding |= f.backward_slice(operand_locals(t["x"]))
+        sig = set()
+        for b, i, s_ in f.assigns():
+            if b in region and s_["rv"]["k"] == "binop" and s_["rv"]["op"] == "BitAnd" and s_["place"]["l"] in deciding:
+                cs = [evaluate(expr_of_operand(f, o), {}) for o in (s_["rv"]["l"], s_["rv"]["r"])]
+                sig.add(("tag&", tuple(sorted(c for c in cs if isinstance(c, int) and not isinstance(c, bool)))))
+        for c in f.calls():
+            if c.path == cm.CT_EQ and c.bb in region and c.dest["l"] in deciding and \
+                    any(x.get("k") in ("copy", "move") and x["l"] in stv for x in c.args):
+                sig.add(("counter==0", tuple(w for w in [cm.array_width(f, a) for a in c.args] if w)))
+        # the masked value is compared with the same constant
+        for b, i, s_ in f.assigns():
+            if b in region and s_["rv"]["k"] == "binop" and s_["rv"]["op"] in ("Eq", "Ne") and s_["place"]["l"] in deciding:
+                ops = [expr_of_operand(f, o) for o in (s_["rv"]["l"], s_["rv"]["r"])]
+                masked = [o for o in ops if o.k == "binop" and o.a == "BitAnd"]
+                vals = [evaluate(o, {}) for o in ops if not (o.k == "binop" and o.a == "BitAnd")]
+                if len(masked) == 1 and len(vals) == 1:
+                    sig.add(("tag-cmp", (vals[0],) if isinstance(vals[0], int) else ("?",)))
         return sig
-    ap, al = trigger_all(push), trigger_all(pull)
-    want = {("tag&", (2,)), ("counter==0", (4,))}
+    ap, al = trigger_all(V[push.key]), trigger_all(V[pull.key])
+    want = {("tag&", (2,)), ("tag-cmp", (2,)), ("counter==0", (4,))}
     rep.ob("LOCKSTEP", "rekey trigger push == pull == libsodium", ap == al == want, "push %s; pull %s; expected %s" % (sorted(ap or []), sorted(al or []), sorted(want)), loc=pull.loc())
     # ---- PADS ---------------------------------------------------------------------------------
-    for f in (push, pull):
+    from ..expr import atoms_of
+    LEN = "core::slice::<impl [T]>::len"
+
+    def grid(f, e, lens):
+        """value of a length expression with the lengths of whole parameter slices fixed (abstract
+        evaluation of the expression tree; no code is run)"""
+        env = {}
+        for a_ in atoms_of(e):
+            if a_.path == LEN and a_.args and a_.fn is f:
+                ls_ = list(operand_locals(a_.args[0]))
+                back_ = f.backward_slice(ls_) | set(ls_)
+                hit = [p_ for p_ in lens if p_ in back_]
+                if len(hit) == 1 and not cm.view_info(f, ls_[0])[1]:
+                    env[(f.key, a_.bb)] = lens[hit[0]]
+        return evaluate(e, env)
+    for f0 in (push, pull):
+        f = V[f0.key]
         ups = [c for c in f.calls() if cm.POLY_UPDATE.search(c.rpath)]
-        txts = [deep_repr(call_arg_exprs(c)[1]) for c in ups]
-        adpad = any("pad16" in t for t in txts)
-        bodypad = any("BitAnd" in t and "const(15)" in t for t in txts)
-        rep.ob("PADS", "%s|AD pad16 and body pad absorbed" % f.name[-4:], adpad and bodypad and len(ups) == 6,
-               "%d MAC updates; AD pad: %s; libsodium-compatible body pad ((0x10-64+mlen)&0xf): %s" % (len(ups), adpad, bodypad), loc=f.loc())
+        adp = [p for p in cm.params_of(f) if "Option<&" in f.locals[p]["t"] and "[u8]" in f.locals[p]["t"]]
+        # the message (push) / ciphertext (pull) parameter: the only immutable byte slice
+        src = [p for p in cm.params_of(f) if f.locals[p]["t"] in ("&[u8]", "&'_ [u8]")]
+        pads = []
+        for c in ups:
+            ls = list(operand_locals(c.args[1]))
+            root, narrowed = cm.view_info(f, ls[0]) if ls else (None, False)
+            if root is None or not narrowed or "[u8; 16]" not in f.locals[root]["t"]:
+                continue
+            e = call_arg_exprs(c)[1]
+            # the range end of the index expression
+            rng = [x for x in (call_arg_exprs(e.a) if e.k == "call" else []) if x.k == "agg"]
+            end = rng[0].c[-1] if rng and rng[0].c else None
+            from_ad = False
+            for a_ in atoms_of(end) if end is not None else ():
+                if a_.path == LEN and a_.args and a_.fn is f:
+                    l_ = list(operand_locals(a_.args[0]))
+                    if adp and adp[0] in (f.backward_slice(l_) | set(l_)):
+                        from_ad = True
+            pads.append((c, deep_repr(e), from_ad, end))
+        okad = okbody = False
+        detail = []
+        for c, t, from_ad, end in pads:
+            structural = "BitAnd" in t and "const(15)" in t
+            if from_ad:
+                vals = [grid(f, end, {adp[0]: a_}) if end is not None else None for a_ in range(0, 40)]
+                if all(isinstance(v, int) and not isinstance(v, bool) for v in vals):
+                    good_ = vals == [(16 - a_ % 16) & 15 for a_ in range(0, 40)]
+                    detail.append("AD pad evaluates to (16-|AD|%%16)&15 on |AD|=0..39: %s" % good_)
+                else:
+                    good_ = structural
+                    detail.append("AD pad (structural): %s" % good_)
+                okad = okad or good_
+            elif len(src) == 1:
+                extra = 17 if f0 is pull else 0
+                vals = [grid(f, end, {src[0]: m_ + extra}) if end is not None else None for m_ in range(0, 48)]
+                if all(isinstance(v, int) and not isinstance(v, bool) for v in vals):
+                    good_ = vals == [(16 - 64 + m_) & 15 for m_ in range(0, 48)]
+                    detail.append("body pad evaluates to (0x10-64+mlen)&0xf on mlen=0..47: %s" % good_)
+                else:
+                    good_ = structural and "Rem" not in t
+                    detail.append("body pad (structural): %s" % good_)
+                okbody = okbody or good_
+        rep.ob("PADS", "%s|AD pad16 and body pad absorbed" % f.name[-4:], okad and okbody and len(pads) == 2,
+               "%d MAC updates, %d over a narrowed 16-byte zero pad; %s" % (len(ups), len(pads), "; ".join(detail)), loc=f.loc())
     # ---- REKEY --------------------------------------------------------------------------------
-    rk = rekey
+    rk = V[rekey.key]
+    st = state_param(rk)
+    stv = views_of(rk, [st])
+    sfields = {}
+    for a in prog.adts.values():
+        if a["path"] == M + "State":
+            for fd in a["variants"][0]["fields"]:
+                sfields[fd["name"]] = fd["ty"]["t"]
     news = [c for c in rk.calls() if c.path.endswith("KeyIvInit::new")]
     ks = [c for c in rk.calls() if c.path.endswith("StreamCipher::apply_keystream")]
     ok = len(news) == 1 and len(ks) == 1
     rep.ob("REKEY", "one cipher, one keystream call", ok, "KeyIvInit::new=%d apply_keystream=%d" % (len(news), len(ks)), loc=rk.loc())
     if ok:
-        back = set()
-        for a in news[0].args:
-            back |= rk.backward_slice(operand_locals(a))
-        t = " ".join(deep_repr(x) for x in call_arg_exprs(news[0]))
-        rep.ob("REKEY", "cipher keyed with state.k / state.nonce", ".k" in t and ".nonce" in t, "cipher operands: %s" % t[:160], loc=news[0].loc())
+        import re as _re
+        targs = [deep_repr(x) for x in call_arg_exprs(news[0])]
+        fty = [sorted({sfields.get(n_, "?") for n_ in _re.findall(r"_%d\.([A-Za-z_]\w*)" % st, t)}) for t in targs]
+        okk = len(fty) == 2 and len(fty[0]) == 1 and len(fty[1]) == 1 and "KEYBYTES" in fty[0][0] and "NONCEBYTES" in fty[1][0] and \
+            not any(cm.view_info(rk, l)[1] for a in news[0].args for l in operand_locals(a))
+        rep.ob("REKEY", "cipher keyed with the state's whole key / whole nonce field", okk, "cipher operands: %s (field types %s)" % (targs, fty), loc=news[0].loc())
         buf = cm.view_info(rk, list(operand_locals(ks[0].args[1]))[0])
         rep.ob("REKEY", "whole (key||inonce) buffer is encrypted", not buf[1] and "[u8; 40]" in rk.locals[buf[0]]["t"],
                "keystream applied to `%s`: %s" % (rk.local_name(buf[0]), rk.locals[buf[0]]["t"]), loc=ks[0].loc())
@@ -189,35 +255,62 @@ def run(ctx, rep):
         after = [c for c in cps if ks[0].bb in rk.dom.get(c.bb, ())]
         rep.ob("REKEY", "buffer filled from state before, state written from buffer after", len(before) == 2 and len(after) == 2 and
                all(cm.view_info(rk, list(operand_locals(c.args[0]))[0])[0] == buf[0] for c in before) and
-               all(cm.view_info(rk, list(operand_locals(c.args[1]))[0])[0] == buf[0] for c in after),
+               all(cm.view_info(rk, list(operand_locals(c.args[1]))[0])[0] == buf[0] for c in after) and
+               all(c.args[1]["l"] in stv for c in before if c.args[1].get("k") in ("copy", "move")) and
+               all(c.args[0]["l"] in stv for c in after if c.args[0].get("k") in ("copy", "move")),
                "%d copies before / %d after the keystream call" % (len(before), len(after)), loc=rk.loc())
         offs, _ = boundaries(prog, rk)
         rep.ob("REKEY", "split at 32", 32 in offs, "buffer offsets %s" % sorted(offs), loc=rk.loc())
-        resets = [c for c in rk.calls() if c.is_local and "counter_reset" in c.rpath or (c.is_local and len(c.args) == 1 and c.rpath.startswith(M + "_"))]
         rets = [b for b in range(rk.n) if rk.blocks[b]["t"]["k"] == "return"]
-        rep.ob("REKEY", "counter reset after re-keying", bool(resets) and all(ks[0].bb in rk.dom.get(c.bb, ()) for c in resets) and
-               all(must_pass(rk, [c.bb for c in resets], r) for r in rets), "counter reset calls: %s" % [c.loc() for c in resets], loc=rk.loc())
+        okr, why = counter_reset(rk, stv, after_bb=ks[0].bb, exits=rets)
+        rep.ob("REKEY", "counter reset after re-keying", okr, why, loc=rk.loc())
     # ---- INIT ---------------------------------------------------------------------------------
     def init_sig(f):
-        st = f.arg_local("state") or 1
+        st = state_param(f)
         offs, _ = boundaries(prog, f)
         names = [n for n, c in state_calls(prog, f, st)]
         h = [c for c in f.calls() if c.rpath.endswith("crypto_core_hchacha20")]
-        hd = f.arg_local("header")
-        key = f.arg_local("key")
+        hd = [p for p in cm.params_of(f) if "[u8; 24]" in f.locals[p]["t"]]
+        key = [p for p in cm.params_of(f) if "[u8; 32]" in f.locals[p]["t"]]
         hsig = None
-        if h:
+        if h and len(hd) == 1 and len(key) == 1:
             ax = h[0].args
-            hsig = (cm.view_info(f, list(operand_locals(ax[1]))[0])[0] == hd, cm.view_info(f, list(operand_locals(ax[2]))[0])[0] == key)
+            hsig = (cm.view_info(f, list(operand_locals(ax[1]))[0])[0] == hd[0], cm.view_info(f, list(operand_locals(ax[2]))[0])[0] == key[0])
         return sorted(offs), names, hsig
-    sp, sl = init_sig(ipush), init_sig(ipull)
+    sp, sl = init_sig(V[ipush.key]), init_sig(V[ipull.key])
     rep.ob("INIT", "init_push == init_pull state derivation", sp == sl and sp[2] == (True, True), "push %s; pull %s" % (sp, sl), loc=ipull.loc())
-    rep.ob("INIT", "header split 16 | 8", sp[0] == [16, 24] or sp[0] == [4, 12, 16, 24] or {16, 24} <= set(sp[0]), "header offsets %s" % sp[0], loc=ipull.loc())
-    # counter reset writes 1 into byte 0 after zero fill
-    cr = [f for f in prog.fns if f.path.startswith(M) and "counter_reset" in f.path]
-    for f in cr:
-        fills = [c for c in f.calls() if c.path == "core::slice::<impl [T]>::fill"]
-        stores = [(b, s) for b, i, s in f.assigns() if "deref" in s["place"]["p"] and s["rv"]["k"] == "use" and s["rv"]["x"].get("v") is not None]
-        ok = len(fills) == 1 and evaluate(call_arg_exprs(fills[0])[1], {}) == 0 and len(stores) == 1 and stores[0][1]["rv"]["x"]["v"] == 1
-        idx0 = ok and any(isinstance(pe, dict) and (pe.get("cidx") == 0 or "idx" in pe) for pe in stores[0][1]["place"]["p"])
-        rep.ob("INIT", "counter reset = 00..00 then byte0 = 1", ok and idx0, "fill(0) x%d, constant stores %s" % (len(fills), [s["rv"]["x"]["v"] for _, s in stores]), loc=f.loc())
+    # header = 16 bytes of HChaCha20 input | 8 bytes of inonce (the header is a [u8; 24], so a split at
+    # 16 determines both parts)
+    rep.ob("INIT", "header split 16 | 8", 16 in sp[0] and not (set(sp[0]) - {4, 12, 16, 24}), "header/nonce offsets %s" % sp[0], loc=ipull.loc())
+    # counter reset writes 1 into byte 0 after zero fill, on every path of both init functions
+    for f0 in (ipush, ipull):
+        f = V[f0.key]
+        rets = [b for b in range(f.n) if f.blocks[b]["t"]["k"] == "return"]
+        okr, why = counter_reset(f, views_of(f, [state_param(f)]), after_bb=None, exits=rets)
+        rep.ob("INIT", "%s|counter reset = 00..00 then byte0 = 1" % f0.name[-9:], okr, why, loc=f0.loc())
+
+
+def counter_reset(f, stv, after_bb, exits):
+    """Every exit is preceded by: a whole-view zeroing of a narrowed state view, then a store of the
+    constant 1 at index 0 of a narrowed state view, with no other constant store in between."""
+    narrowed = {l for l, nar in stv.items() if nar}
+    zs = cm.zero_events(f, narrowed)
+    stores = cm.const_index_stores(f, narrowed)
+    ones = [x for x in stores if x[2] == 0 and x[3] == 1]
+    other = [x for x in stores if not (x[2] == 0 and x[3] == 1)]
+    why = "zeroing %s; constant stores %s" % ([z[2] for z in zs], [(i, v) for _, _, i, v in stores])
+    if not zs or not ones or other:
+        return False, why
+    zb = [z[0] for z in zs]
+    ob = [o[0] for o in ones]
+    ok = all(must_pass(f, zb, e) and must_pass(f, ob, e) for e in exits)
+    # order: some zeroing precedes the 1-store and none can follow it
+    ok = ok and all(any(o in f.reachable(z) for z in zb) for o in ob) and not any(z in f.reachable_from_after(o) for o in ob for z in zb if z != o)
+    ok = ok and not any(z == o and _stmt_order_bad(f, z) for z in zb for o in ob)
+    if after_bb is not None:
+        ok = ok and all(after_bb in f.dom.get(x, ()) for x in zb + ob)
+    return ok, why
+
+
+def _stmt_order_bad(f, b):
+    return False
